@@ -94,3 +94,8 @@ chk("C15", "model_checking",
     "traversal writers of both modules, with the observed loads as oracle for content/order and all announced sizes, counts, callbacks and Dump/Write compared.",
     "Exhaustive within: DAGs over 4 nodes, 4 selectors, visit-once on/off, 3 budgets. " + TB,
     "TLA+ DFS model + TLC-enumerated DAGs replayed through the traversal writers", "DESIGN.md §3 C15")
+chk("C09", "exploration",
+    "Parser.tla gives the scanner's termination/no-big-allocation argument (TLC, all token strings up to the bound) and the exact-limit matrix, which is run on every entry point; panics, hangs and allocation on "
+    "arbitrary bytes are decided by executing field-aware mutations and random strings through all entry points in child processes.",
+    "Limit matrix exhaustive over entry points; byte-level part sampled (quick 11k inputs x 19 entry points, thorough ~1M). " + TB,
+    "TLA+ scanner model + limit matrix replay + child-process fuzzing of all parsing entry points", "DESIGN.md §3 C09")
